@@ -66,7 +66,14 @@ func vfPipelineRun(sc vfScript) []map[string]any {
 		vfPMust(ss.PutGroup(ctx0, g), "put group")
 		return ss
 	}
+	// scenarios with win > 0: the receiver precomputes only win keys (ratchet window of C02)
+	win, _ := vfNum(sc.Cfg, "win")
 	recv := newStore()
+	if win > 0 {
+		recv, err = secretstore.NewSecretStore(dssync.MutexWrap(datastore.NewMapDatastore()), &secretstore.NewSecretStoreOptions{PreComputedKeysCount: win})
+		vfPMust(err, "secret store (window)")
+		vfPMust(recv.PutGroup(ctx0, g), "put group")
+	}
 	romd, err := recv.GetOwnMemberDeviceForGroup(g)
 	vfPMust(err, "own member device")
 
@@ -269,7 +276,7 @@ func vfPipelineRun(sc vfScript) []map[string]any {
 	}
 	st := c.States()
 	drain()
-	fin := map[string]any{"ev": "final", "extra": extra, "livelock": extra >= 1000, "known": known(), "arrived": arrived}
+	fin := map[string]any{"ev": "final", "extra": extra, "livelock": extra >= 1000, "known": known(), "arrived": arrived, "win": win, "ctrof": ctrOf}
 	atgate, parkedT := []string{}, []string{}
 	th := map[string]any{}
 	for n, s := range st {
